@@ -10,6 +10,10 @@ Regenerated from /repo/src/peer_connection.rs (+ sdp.rs, config.rs) on every run
       set_local_check_first        state check precedes set_mid/update_payload_map/update_extmap
       set_remote_next_mid_after_check   next_mid.fetch_max follows the state check
       set_remote_fp_check_early    the "changing remote DTLS fingerprint" refusal precedes handle_reinvite
+      {set_remote,create_offer,create_answer}_restores_on_error   the call snapshots the signalling
+                                   state before its fallible work and restores it on the Err path
+      signalling_calls_serialised  all four calls hold `signaling_lock` (try_lock in the sync one)
+      transition_atomic            check + transition is one `send_if_modified`
   * the next_mid bump `fetch_max(mid_val + K)` / `fetch_max(mid_val.saturating_add(K))`
 The model (Model/Signaling.v) branches on these values, so a source change re-checks the
 proofs against what the code says now.  Anything that no longer has the expected shape raises
@@ -24,13 +28,18 @@ PC = "src/peer_connection.rs"
 
 
 def _arms(body, what):
-    """parse the `match desc.sdp_type { SdpType::T => {...} ... }` state-check block of a setter"""
-    m = re.search(r"let\s+state\s*=\s*&self\.inner\.signaling_state\s*;\s*match\s+desc\.sdp_type\s*\{", body)
+    """parse the state-check block `match desc.sdp_type { SdpType::T => {...} ... }` of a setter.
+    Two arm shapes are understood:
+      atomic:  if !self.inner.signaling_transition(SignalingState::R, Some(SignalingState::N) | None) { return Err(InvalidState..) }
+      split :  if *state.borrow() != SignalingState::R { return Err(InvalidState..) }  [state.send(SignalingState::N);]
+    returns (rules, position of the block, atomic?)"""
+    m = re.search(r"\{\s*(?:let\s+state\s*=\s*&self\.inner\.signaling_state\s*;\s*)?match\s+desc\.sdp_type\s*\{", body)
     if not m:
         raise Untranslatable("%s: state-check match block not found" % what)
     end = rs2v.balanced(body, m.end() - 1)
     blk = body[m.end():end - 1]
     rules = {}
+    shapes = set()
     pos = 0
     while True:
         mm = re.compile(r"SdpType::([A-Za-z]+)\s*=>\s*\{").search(blk, pos)
@@ -40,8 +49,15 @@ def _arms(body, what):
         arm = blk[mm.end():aend - 1]
         pos = aend
         t = mm.group(1)
+        cas = re.findall(r"if\s+!\s*self\s*\.inner\s*\.signaling_transition\(\s*SignalingState::([A-Za-z]+)\s*,\s*(None|Some\(\s*SignalingState::([A-Za-z]+)\s*\))\s*,?\s*\)\s*\{\s*return\s+Err\(\s*RtcError::InvalidState", arm)
         req = re.findall(r"if\s+\*state\.borrow\(\)\s*!=\s*SignalingState::([A-Za-z]+)\s*\{\s*return\s+Err\(\s*RtcError::InvalidState", arm)
         snd = re.findall(r"state\.send\(SignalingState::([A-Za-z]+)\)", arm)
+        if cas:
+            if len(cas) != 1 or req or snd:
+                raise Untranslatable("%s: arm %s mixes atomic and split transitions" % (what, t))
+            rules[t] = (cas[0][0], cas[0][2] or None)
+            shapes.add("atomic")
+            continue
         if not req:
             if re.search(r"^\s*return\s+Err\(RtcError::NotImplemented", arm):
                 rules[t] = None
@@ -49,11 +65,13 @@ def _arms(body, what):
             raise Untranslatable("%s: arm %s has no recognisable state check" % (what, t))
         if len(req) != 1 or len(snd) > 1:
             raise Untranslatable("%s: arm %s has an unexpected shape" % (what, t))
-        # the check must precede the send
         if snd and arm.index("state.send(") < arm.index("state.borrow()"):
             raise Untranslatable("%s: arm %s sends before checking" % (what, t))
         rules[t] = (req[0], snd[0] if snd else None)
-    return rules, m.start()
+        shapes.add("split")
+    if len(shapes) > 1:
+        raise Untranslatable("%s: arms mix atomic and split transitions" % what)
+    return rules, m.start(), shapes == {"atomic"}
 
 
 def _rule_def(name, rules, variants):
@@ -87,7 +105,7 @@ def gen_signaling():
         mm = re.search(r"let\s+state\s*=\s*&self\.inner\.signaling_state\s*;\s*if\s+\*state\.borrow\(\)\s*!=\s*SignalingState::([A-Za-z]+)\s*\{\s*return\s+Err\(\s*RtcError::InvalidState", body)
         if not mm:
             raise Untranslatable("%s: precondition on the signaling state not found at function entry" % fn)
-        if body.index("signaling_state") > 120:
+        if body.index("signaling_state") > 220:
             raise Untranslatable("%s: state precondition is no longer the first statement" % fn)
         m.raw("Definition %s_required : SignalingState := SignalingState_%s." % (fn, mm.group(1)), "fn %s precondition" % fn, PC)
 
@@ -102,7 +120,8 @@ def gen_signaling():
 
     # ---- set_local_description
     _, _, body = find_fn(src, "set_local_description")
-    rules, chk = _arms(body, "set_local_description")
+    rules, chk, atomic_local = _arms(body, "set_local_description")
+    local_body = body
     m.raw(_rule_def("set_local_rule", rules, variants), "fn set_local_description state table", PC)
     muts = [body.find(x) for x in (".set_mid(", ".update_payload_map(", ".update_extmap(")]
     if any(x < 0 for x in muts):
@@ -118,7 +137,7 @@ def gen_signaling():
 
     # ---- set_remote_description
     _, _, body = find_fn(src, "set_remote_description")
-    rules, chk = _arms(body, "set_remote_description")
+    rules, chk, atomic_remote = _arms(body, "set_remote_description")
     m.raw(_rule_def("set_remote_rule", rules, variants), "fn set_remote_description state table", PC)
     bump = re.search(r"next_mid\s*\.fetch_max\(\s*mid_val\s*(\+|\.saturating_add\(|\.wrapping_add\()\s*(\d+)\s*\)?\s*,", body)
     if not bump or len(re.findall(r"next_mid\s*\.fetch_max", body)) != 1:
@@ -141,6 +160,96 @@ def gen_signaling():
           "fn set_remote_description order of next_mid update vs state check", PC)
     m.raw("Definition set_remote_fp_check_early : bool := %s." % ("true" if fps[0] < reinv else "false"),
           "fn set_remote_description order of fingerprint-change refusal vs reinvite application", PC)
+
+    # ---- restore-on-error guards: a drop guard `SignalingUndo::new(self)` created before the fallible
+    # work, disarmed (only) right before the Ok exits; its Drop restores the snapshot
+    def guarded(text, what, first_stmt):
+        mk = [x.start() for x in re.finditer(r"let\s+mut\s+undo\s*=\s*SignalingUndo::new\(self\)\s*;", text)]
+        dis = [x.start() for x in re.finditer(r"undo\.disarm\(\)\s*;", text)]
+        if not mk and not dis:
+            return False
+        if len(mk) != 1 or not dis or min(dis) < mk[0]:
+            raise Untranslatable("%s: restore guard has an unexpected shape" % what)
+        if first_stmt and mk[0] > 700:
+            raise Untranslatable("%s: the restore guard is no longer created at function entry" % what)
+        return True
+    _, _, b_remote = find_fn(src, "set_remote_description")
+    g_remote = guarded(b_remote, "set_remote_description", True)
+    if g_remote:
+        # every Ok exit disarms, nothing else does
+        oks = len(re.findall(r"\bOk\(\(\)\)", b_remote))
+        dis_ok = len(re.findall(r"undo\.disarm\(\)\s*;\s*(?:return\s+)?Ok\(\(\)\)", b_remote))
+        if oks != dis_ok or len(re.findall(r"undo\.disarm\(\)", b_remote)) != dis_ok:
+            raise Untranslatable("set_remote_description: %d Ok exits but %d of them disarm the restore guard" % (oks, dis_ok))
+        if b_remote.find("SignalingUndo::new(self)") > b_remote.find("handle_reinvite("):
+            raise Untranslatable("set_remote_description: restore guard created after the first mutation")
+    _, _, b_offer = find_fn(src, "create_offer")
+    _, _, b_answer = find_fn(src, "create_answer")
+    def guarded_build(text, what, ty):
+        g = guarded(text, what, False)
+        if g and not re.search(r"SignalingUndo::new\(self\)\s*;\s*let\s+desc\s*=\s*self\s*\.inner\s*\.build_description\(SdpType::%s\b[^;]*\.await\?\s*;\s*undo\.disarm\(\)\s*;" % ty, text):
+            raise Untranslatable("%s: restore guard does not bracket build_description(...).await?" % what)
+        return g
+    g_offer = guarded_build(b_offer, "create_offer", "Offer")
+    g_answer = guarded_build(b_answer, "create_answer", "Answer")
+    if g_remote or g_offer or g_answer:
+        _, _, rb = find_fn(src, "restore_signaling")
+        _, _, sb = find_fn(src, "signaling_snapshot")
+        need_snap = ["signaling_state.borrow()", "remote_description.lock().clone()", "next_mid.load", "remote_dtls_fingerprint.lock().clone()",
+                     "transceivers.lock().clone()", "t.mid()", "t.direction()", "t.get_payload_map()", "t.get_extmap()"]
+        need_rest = ["signaling_state.send_if_modified", "SignalingState::Closed", "*remote = snapshot.remote", "next_mid.store(snapshot.next_mid",
+                     "remote_dtls_fingerprint.lock() = snapshot.remote_dtls_fingerprint", "*t.mid.lock() = mid", "t.set_direction(direction)",
+                     "t.update_payload_map(payload_map)", "t.update_extmap(extmap)", "*transceivers = snapshot.transceivers"]
+        for n in need_snap:
+            if n not in sb:
+                raise Untranslatable("signaling_snapshot no longer captures `%s`" % n)
+        for n in need_rest:
+            if n not in rb:
+                raise Untranslatable("restore_signaling no longer restores `%s`" % n)
+        mm = re.search(r"impl\s+Drop\s+for\s+SignalingUndo(?:<[^>]*>)?\s*\{", src)
+        if not mm:
+            raise Untranslatable("impl Drop for SignalingUndo not found")
+        drop_body = src[mm.end() - 1:rs2v.balanced(src, mm.end() - 1)]
+        if not re.search(r"if\s+let\s+Some\(snapshot\)\s*=\s*self\.snapshot\.take\(\)\s*\{\s*self\.pc\.restore_signaling\(snapshot\)", drop_body):
+            raise Untranslatable("SignalingUndo::drop no longer restores the snapshot")
+        _, _, nb = find_fn(src, "new", "SignalingUndo<'a>") if re.search(r"impl<'a>\s+SignalingUndo<'a>", src) else ("", "", "")
+        if "pc.signaling_snapshot()" not in src[src.find("impl<'a> SignalingUndo<'a>"):mm.start()]:
+            raise Untranslatable("SignalingUndo::new no longer takes the snapshot")
+        db = src[src.find("fn disarm(&mut self)"):]
+        if not re.match(r"fn disarm\(&mut self\)\s*\{\s*self\.snapshot\s*=\s*None\s*;\s*\}", db):
+            raise Untranslatable("SignalingUndo::disarm changed shape")
+    for nm, v in (("set_remote", g_remote), ("create_offer", g_offer), ("create_answer", g_answer)):
+        m.raw("Definition %s_restores_on_error : bool := %s." % (nm, "true" if v else "false"),
+              "fn %s restore-on-error guard (SignalingUndo drop guard: signaling_snapshot / restore_signaling)" % nm, PC)
+
+    # ---- serialisation of signalling calls: the operation lock and the atomic transition
+    def holds_lock(fn, sync):
+        _, _, bd = find_fn(src, fn)
+        pat = (r"^\{\s*let\s+_op\s*=\s*self\.inner\.signaling_lock\.try_lock\(\)\.map_err\(" if sync
+               else r"let\s+_op\s*=\s*self\.inner\.signaling_lock\.lock\(\)\.await\s*;")
+        mm = re.search(pat, bd)
+        if not mm:
+            return False
+        first = min([x for x in (bd.find("signaling_state"), bd.find("signaling_transition"), bd.find("SignalingUndo::new")) if x >= 0] or [10 ** 9])
+        if mm.start() > first:
+            raise Untranslatable("%s: the signaling lock is taken after the state is read" % fn)
+        return True
+    locks = [holds_lock("create_offer", False), holds_lock("create_answer", False), holds_lock("set_remote_description", False),
+             holds_lock("set_local_description", True)]
+    if any(locks) and not all(locks):
+        raise Untranslatable("only some of the four signalling calls take signaling_lock: %r" % locks)
+    if all(locks) and not re.search(r"signaling_lock\s*:\s*tokio::sync::Mutex<\(\)>", src):
+        raise Untranslatable("signaling_lock is not a tokio::sync::Mutex<()>")
+    m.raw("Definition signalling_calls_serialised : bool := %s." % ("true" if all(locks) else "false"),
+          "signaling_lock held by create_offer / create_answer / set_remote_description (lock().await) and set_local_description (try_lock)", PC)
+    if atomic_local != atomic_remote:
+        raise Untranslatable("set_local_description and set_remote_description use different kinds of state transition")
+    if atomic_local:
+        _, _, tb = find_fn(src, "signaling_transition")
+        if not re.search(r"self\.signaling_state\.send_if_modified\(\|state\|\s*\{\s*accepted\s*=\s*\*state\s*==\s*required\s*;\s*match\s+next\s*\{\s*Some\(next\)\s+if\s+accepted\s*&&\s*\*state\s*!=\s*next\s*=>\s*\{\s*\*state\s*=\s*next\s*;\s*true\s*\}\s*_\s*=>\s*false\s*,?\s*\}\s*\}\)\s*;\s*accepted", tb):
+            raise Untranslatable("signaling_transition is no longer a single send_if_modified check-and-set")
+    m.raw("Definition transition_atomic : bool := %s." % ("true" if atomic_local else "false"),
+          "state check and transition of the setters are one atomic send_if_modified (signaling_transition)", PC)
 
     # ---- allocate_mid: fetch_add(1) on an AtomicU16
     _, _, body = find_fn(src, "allocate_mid")
